@@ -39,7 +39,12 @@ RULE = ("random circuits of 1-4 persistent-capable blocks (Input, Counter, Timer
         "__setitem__, pop/__delitem__, keys()/iteration and __getitem__ of chosen keys raise OSError / RuntimeError / an "
         "application exception on demand): reads of block entries and of the stop time, keys() and the purge at the "
         "start of the first or of a restarted circuit, writes (and the pop that removes the stale entry) during a "
-        "stretch of events and timer firings, at the saves and the stop-time write of the stop; compared with the Lean "
+        "stretch of events and timer firings, at the saves and the stop-time write of the stop; half of the generated FSM "
+        "classes have one or two entry actions that request a CHAINED transition with an event or a Goto to their own "
+        "block (acyclic; later entry actions / conditions of the chain may fail or reject, Goto targets may be unknown) "
+        "and 12 % an on_enter / on_exit event of a type its destination does not know; the storage is copied after "
+        "EVERY write (crash points inside an event), a third of the scenarios restart from a JSON-like storage that "
+        "returns a saved tuple as a list; compared with the Lean "
         "model line by line: result of every event, every block's persistent flag/state/output/sdata/absolute "
         "timer expiry/entry-action log, persistent_ts and the canonicalised storage; a case is distinct by its "
         "(lines, trace) hash and non-trivial when it has at least one storage-changing event and one restart")
@@ -54,7 +59,10 @@ ASSUMPTIONS = [
     "15-line membership function in the harness); C07/C13 are about that predicate",
     "storage back-end with value semantics (deep copy on write and on read, like shelve)",
     "Counter values are ints; FSM callbacks are scripts (cond: yes/no/state!=s/InputExp.cond_put/raise; enter: "
-    "nop/sdata[k]=v/raise); no chained events, no zero durations, no per-event duration (C03/C04 cover these)",
+    "nop/sdata[k]=v/raise/self.event(EVENT)/self.event(Goto(STATE))); chained transitions only as requested by an entry "
+    "action (one request per action, acyclic), no zero durations, no per-event duration (C03/C04 cover these)",
+    "an on_enter/on_exit event of an unknown type (nested EdzedUnknownEvent, the C09 known findings) is not modelled: the "
+    "comparison with the model ends before the first such event of a scenario, the oracle judges the whole run",
     "events during the clean-up of a FAILED start-up are not modelled (circuits with the slow clean-up block are "
     "generated so that their initialisation succeeds); after an interrupted clean-up the life ends (FSM timers "
     "that were not cancelled are not followed any further)",
